@@ -12,3 +12,5 @@ Fixpoint digits_rev (fuel : nat) (n : N) : list N :=
 Definition dec (n : N) : list N := map (fun d => d + 48) (rev (digits_rev (S (N.to_nat (N.size n))) n)).
 Definition undec (l : list N) : N := fold_left (fun acc b => acc * 10 + (b - 48)) l 0.
 
+
+Definition is_digit (b : N) : bool := (48 <=? b) && (b <=? 57).
